@@ -38,14 +38,19 @@ CHECKS = {
         'level': 'exploration',
         'engine': 'asyncprims',
         'technique': DST + ': a scripted operation raises seeded sequences of exceptions built from labelled families '
-                           '(transient, rate-limit, limited-retry, permanent, chained, CancelledError) under the real '
-                           'retry helpers on a virtual-time loop; a label-driven reference model decides attempt '
+                           '(transient, rate-limit, limited-retry, permanent, chained, CancelledError; error responses '
+                           'built by the real hailtop.httpx.ClientResponseError constructor from realistic documents of '
+                           'seeded length with the deciding text at a seeded offset) under the real retry helpers on a virtual-time loop; a label-driven reference model decides attempt '
                            'counts, the raised object and the back-off window of every wait',
         'design_ref': 'DESIGN.md section 6 (C21), section 5.2',
         'level_text': 'Seeded exploration of failure sequences (up to 12, thorough 20 failures per call) through '
                       'retry_transient_errors and its debug-string / delayed-warning variants: the number of invocations, '
                       'the identity of the raised exception and the simulated time of every back-off are compared with a '
-                      'reference policy that reads only the harness-side labels; delay_ms_for_try / sleep_before_try are '
+                      'reference policy that reads only the harness-side labels; every classification that reads the '
+                      'response text (403 rateLimitExceeded, the two limited-retry 400 messages) is also exercised with '
+                      'Google-style JSON / OAuth error documents of up to 75 000 characters in which the deciding text '
+                      'starts before, across and after character 256 / 1024 / 4096 / 65536, next to look-alike documents '
+                      'without it or under another status (permanent); delay_ms_for_try / sleep_before_try are '
                       'probed directly with seeded arguments; retry_all_errors(_n_times) lightly. Samples sequences; not '
                       'a proof. The jitter source random.randrange is replaced by the run\'s choice stream.',
         'level_note': 'Trusted base: the labelled exception families are the harness author\'s reading of the lists in '
@@ -60,6 +65,9 @@ CHECKS = {
                             'permanent_raised_first_try', 'success_after_retries', 'long_sequence',
                             'cancelled_error_from_callable', 'outer_cancel_during_backoff',
                             'transient_and_limited_after_five', 'context_only_not_retried', 'direct_delay_probe',
-                            'chained_rate_limit_retried', 'sync_helper'],
+                            'chained_rate_limit_retried', 'sync_helper', 'decided_by_text_before_256',
+                            'decided_by_text_across_256', 'decided_by_text_past_256', 'decided_by_text_past_1024',
+                            'decided_by_text_past_4096', 'decided_by_text_before_long_tail',
+                            'permanent_long_document_raised'],
     },
 }
